@@ -115,7 +115,11 @@ Fixpoint walk (prev : snap) (opn : gset N) (keep : bool) (steps : list hstep) (i
 Definition ok_c08 (steps : list hstep) (impl : list iobs) : bool := walk snap_empty ∅ true steps impl.
 
 Definition judge_c08 (steps : list hstep) (impl : list iobs) : verdict :=
-  judge_of (hist_scope_b hist_init steps) (corr_history steps impl) (ok_c08 steps impl).
+  (* The property text carries no proviso, so the executable statement is evaluated on every
+     history; the theorems of Props/C08.v are proved under C06's proviso ([hist_scope]): outside
+     it (a span id re-announced while alive) the verdict rests on the correspondence and on the
+     tracker run on the implementation's own calls. *)
+  judge_of true (corr_history steps impl) (ok_c08 steps impl).
 
 (** * specifications of the boolean helpers *)
 Lemma step_scope_b_spec h s : step_scope_b h s = true ↔ step_scope h s.
